@@ -19,6 +19,33 @@ LITERALS = ["[___] fee", "snake_case_name", "2*3*4", "a_b", "__init__", "**", "f
 MARKDOWN = ["**Bold** plain", "plain _it_", "**B1** and _i2_", "_it_", "**a b** c **d**", "**_both_** x", "pre **mid** post"]
 
 
+def gen_para_start_prefix(rng, doc, texts):
+    """an inline word put in front of the first words of a paragraph that follows another paragraph / table cell (the run in
+    front of the offset then belongs to the previous paragraph); -> list with 0 or 1 edit"""
+    word = editgen.WordSource(rng)
+    pvs = [editgen.ParaView(si, pi, p) for pi, (si, p) in enumerate(sem.all_paragraphs(doc))]
+    cands = [pv for k, pv in enumerate(pvs) if k > 0 and pvs[k - 1].si == pv.si and pvs[k - 1].acc]
+    rng.shuffle(cands)
+    for pv in cands[:6]:
+        acc = pv.acc
+        b = 0
+        while b < len(acc) and b < 14 and (acc[b]["c"] != " " or b < 3):
+            b += 1
+        seg = acc[:b]
+        if not seg or not editgen.stretch_ok(seg) or seg[0]["state"] != "plain":
+            continue
+        target = "".join(c["c"] for c in seg)
+        if not target.strip() or target != target.strip():
+            continue
+        if editgen.count_occ(texts["clean"], target) != 1 or editgen.count_occ(texts["raw"], target) != 1 or editgen.annot_hit(texts, target):
+            continue
+        if editgen.count_occ(editgen.fuzzy_norm(texts["clean"]), editgen.fuzzy_norm(target)) != 1:
+            continue
+        return [{"si": pv.si, "pi": pv.pi, "a": 0, "b": b, "target": target, "new": rng.choice([word() + " ", "(" + word() + ")", word() + "-", word() + " "]) + target, "kind": "prefix", "comment": None,
+                 "locatable": True, "in_raw": True, "over_del": False, "state": "plain", "rid": None, "at_para_start": True}]
+    return []
+
+
 def work(case):
     if "doc" not in case:
         doc, feats, rng = gen.gen_document(case["seed"], case["index"], PROFILES[case["profile"]])
@@ -34,6 +61,8 @@ def work(case):
     edits = case.get("edits")
     if edits is None:
         edits = editgen.gen_para_end_extend(rng, case["doc"], texts) if rng.random() < 0.2 else []
+        if not edits and rng.random() < 0.2:
+            edits = gen_para_start_prefix(rng, case["doc"], texts)
         edits = edits or editgen.gen_batch(rng, case["doc"], texts, 1, ["heading", "heading", "multiline", "replace"]
                                            if case.get("stream") == "localized" else KINDS)
         for e in edits:
